@@ -31,7 +31,7 @@ from gherkin import dialect as dialect_mod
 ID = "C15"
 LEVEL = "exploration"
 TECHNIQUE = ("runtime monitoring: reuse-vs-fresh histories with a fresh-state monitor hooked at every parse start; controlled "
-             "scheduler gating the real TokenScanner.read over enumerated interleavings; free-running threads with sys.monitoring "
+             "scheduler gating every token fetch (Parser.read_token) over enumerated interleavings; free-running threads with sys.monitoring "
              "yield injection")
 RULE = ("(a) histories: every ordered pair and triple over a pool of %d state-perturbing documents (good en; fr/no headers, CRLF; "
         "ends inside an indented \"\"\" / ``` doc string; 15 errors (cap); unknown language; ragged table; bad tag in a look-ahead run; "
@@ -41,10 +41,11 @@ RULE = ("(a) histories: every ordered pair and triple over a pool of %d state-pe
         "shifted by the counter offset; plus sampled longer histories; the fresh-state monitor G13 is evaluated at every parse start "
         "(matcher attributes == fresh matcher's, builder stack/comments, empty queue and error list); compile leaves its argument "
         "unchanged and is deterministic; DIALECTS unchanged at exit; Markdown matcher: reset() restores a fresh state (line level). "
-        "(b) schedules: worker threads block in the TokenScanner.read wrapper until the scheduler gives them the turn; ALL "
+        "(b) schedules: worker threads block in a gate (at every token fetch) until the scheduler gives them the turn; ALL "
         "interleavings of 2 parses (<= 7 reads each) and sampled/all interleavings of 3 parses, random interleavings of larger "
         "documents, and free-running threads with 1 microsecond switch interval and LINE-event sleep(0) injection: every parse's result "
-        "equals its solo result.  Distinct = the history / the schedule." % len(POOL))
+        "equals its solo result.  Distinct = the history / the schedule."
+        " Also: the scheduler gates at Parser.read_token (every token fetch, also from the look-ahead queue); a fourth history configuration hands sources over as TokenScanner objects; the pool contains parses abandoned while look-ahead tokens are buffered; every document and pickle list returned earlier in a history is re-checked for later modification (G15); two-way interleaving sets above the tier's limit are sampled uniformly instead of enumerated (counted separately)." % len(POOL))
 ASSUMPTIONS = ["each concurrent parse uses its own Parser/TokenMatcher/AstBuilder instances (the library's classes are not documented as thread-safe objects; the property is about parsers working on different documents)",
                "results are compared after subtracting the id offset of the shared generator"]
 DECIDING = ["histories", "G13.evaluated", "schedules", "compile_purity_checks", "free_running_parses"]
